@@ -49,6 +49,7 @@ type GenCfg struct {
 	LogicalKeys        bool     // Render keys struct values by schema key (a logical record to be re-keyed per front end)
 	PostBehaviours     []string // behaviours of generated PostTransforms (default: mutate)
 	PPre               float64  // probability that a string leaf / string slice is wrapped in Preprocess (parse only)
+	PLong              float64  // probability that a slice value gets 17..40 elements
 	PClean             float64  // probability that a case gets no input perturbation at all (PVary/PAbsent/PJunk scaled to 0)
 	PLight             float64  // probability that the perturbation probabilities are scaled by 0.25
 }
@@ -57,7 +58,7 @@ func DefaultCfg(mode string) GenCfg {
 	return GenCfg{
 		MaxDepth: 3, MaxFields: 4, MaxElems: 4, MaxTests: 3, Mode: mode,
 		PCatch: 0.15, PDefault: 0.12, PReq: 0.45, PPost: 0.1, PAbsent: 0.12, PJunk: 0.05, PVary: 0.25,
-		PTestSat: 0.8, POpts: 0.12, PZogTag: 0.25,
+		PTestSat: 0.8, POpts: 0.12, PZogTag: 0.25, PLong: 0.02,
 		LeafKinds: []string{KString, KString, KInt, KInt, KInt32, KInt64, KFloat32, KFloat64, KBool, KTime},
 	}
 }
@@ -124,6 +125,7 @@ var plainStrings = []string{
 	"a", "ab", "abc", "abcd", "hello", "Hello", "HELLO1", "zog", "x", "zz", "Az", "ab12", "123", "42", "7",
 	"pass-word!", "p@ss", "a b", " lead", "trail ", "é", "日本", "naïve", "a.b", "user_name", "UPPER", "lower", "MiXeD9!",
 	"true", "on", "0", "-5", "3.5", "~", "[x]", "{}", "q",
+	"1.2345678e+07", "1e+21", "1.234e-05", "2.5", "-0.5", "1e-07", "123456.7", "false", "9007199254740993",
 }
 
 var emailStrings = []string{"a@b.c", "user@example.com", "first.last@sub.example.org", "x+y@host-1.io", "A1@b2.c3"}
@@ -211,6 +213,9 @@ func (g *Gen) vary(kind string, w Val) Val {
 		case 4:
 			if g.Cfg.FullyPop {
 				return Str("k")
+			}
+			if g.intn(0, 2, "ws") == 0 {
+				return Str(pick(g, []string{" ", "\t", " \n ", "\u00a0"}, "wsv")) // white space only: absent in Parse, present in Validate
 			}
 			return Str("")
 		default:
@@ -830,6 +835,9 @@ func (g *Gen) GenTyped(n *Node) Val {
 		if g.p(g.Cfg.PVary*g.scale, "slv") {
 			k = g.intn(lo, g.Cfg.MaxElems, "sl")
 		}
+		if g.p(g.Cfg.PLong, "long") {
+			k = g.intn(17, 40, "sll")
+		}
 		out := Val{T: "list", L: make([]Val, 0, k)}
 		for i := 0; i < k; i++ {
 			out.L = append(out.L, g.GenTyped(n.Elem))
@@ -987,6 +995,10 @@ func (g *Gen) altRepr(n *Node, v Val) Val {
 		}
 		if s == "true" || s == "false" {
 			return Bool(s == "true")
+		}
+		// a float whose %v rendering is exactly this string (documented: any value -> its %v string)
+		if f, err := strconv.ParseFloat(s, 64); err == nil && fmt.Sprintf("%v", f) == s {
+			return F64(f)
 		}
 		return v
 	case KInt, KInt32, KInt64:
